@@ -459,9 +459,12 @@ class timestamp( object ):
 
         """
         try:
-            terms		= str( s ).translate( cls._timeseps ).split()
-            if not terms[-1].isdigit(): # Hmm; Last term isn't digits; must be a timezone.
+            terms		= str( s ).split()
+            if len( terms ) > 1 and terms[-1].strip( '0123456789:.' ):
+                # Hmm; Last term isn't a time; must be a timezone.  Split it off before converting
+                # separators, so zone names and numeric offsets containing '-' remain intact.
                 terms,tzinfo	= terms[:-1],terms[-1]
+            terms		= ' '.join( terms ).translate( cls._timeseps ).split()
             is_dst		= None
             if tzinfo is None:
                 tzinfo		= cls.UTC
